@@ -23,6 +23,7 @@ import (
 	"errors"
 	"fmt"
 	"io"
+	"regexp"
 	"sort"
 	"syscall"
 	"time"
@@ -878,6 +879,39 @@ func call(f func()) string {
 	}
 }
 
+// intern binds every digest and every longer string literal of a case term
+// once (let ... in): coqc spends its time type checking literals, not in
+// vm_compute.
+var (
+	digestLiteral = regexp.MustCompile(`\("[0-9a-zA-Z]*"%string, \(?-?[0-9]+\)?%Z\)`)
+	stringLiteral = regexp.MustCompile(`"[^"]{6,}"%string`)
+)
+
+func intern(term string) string {
+	var lets []string
+	pass := func(re *regexp.Regexp, prefix string) {
+		names := map[string]string{}
+		term = re.ReplaceAllStringFunc(term, func(lit string) string {
+			if n, ok := names[lit]; ok {
+				return n
+			}
+			n := fmt.Sprintf("%s%d", prefix, len(names))
+			names[lit] = n
+			lets = append(lets, "let "+n+" := "+lit+" in ")
+			return n
+		})
+	}
+	pass(digestLiteral, "dg")
+	pass(stringLiteral, "str")
+	// digests are bound first but may mention interned strings: bind strings first
+	sort.SliceStable(lets, func(i, j int) bool { return lets[i][4] == 's' && lets[j][4] != 's' })
+	out := "("
+	for _, l := range lets {
+		out += l
+	}
+	return out + term + ")"
+}
+
 // ---- execution -------------------------------------------------------------
 
 func (area) Execute(raw json.RawMessage) (term string, info *hcommon.Info, err error) {
@@ -1220,7 +1254,7 @@ func (area) Execute(raw json.RawMessage) (term string, info *hcommon.Info, err e
 		}
 	}
 	info.Nontrivial = okFetches >= 3 && failedFetches >= 1 && refused >= 1
-	return g.App("mkCase", g.List(casTerms), g.List(blobTerms), g.List(ops), g.List(outs)), info, nil
+	return intern(g.App("mkCase", g.List(casTerms), g.List(blobTerms), g.List(ops), g.List(outs))), info, nil
 }
 
 // ---- cachingDirectoryFetcher -----------------------------------------------
@@ -1373,8 +1407,8 @@ func executeCache(h history, info *hcommon.Info) (string, *hcommon.Info, error) 
 		outs = append(outs, "("+res+", "+g.Bool(base.called)+")")
 	}
 	info.Nontrivial = hits > 0 && misses > h.MaxC
-	return g.App("mkCacheCase", g.App("mkStore", g.List(dirTerms), g.List(rootTerms)), g.Bool(h.Fmt),
-		fmt.Sprint(h.MaxC), g.Z(h.MaxS), g.List(ops), g.List(outs)), info, nil
+	return intern(g.App("mkCacheCase", g.App("mkStore", g.List(dirTerms), g.List(rootTerms)), g.Bool(h.Fmt),
+		fmt.Sprint(h.MaxC), g.Z(h.MaxS), g.List(ops), g.List(outs))), info, nil
 }
 
 func main() { hcommon.Main(area{}) }
